@@ -78,6 +78,17 @@ CHECKS = {
              "via the stdlib's ln. translator/py2coq.py and its role signatures are trusted, validated here by evaluating its IR against the real functions. scipy.stats.chi2 and "
              "np.quantile are modelled/oracles, binary64 rounding is outside the theorems (rel. tolerance 1e-11).",
         ref="DESIGN.md section 4 / C15"),
+    "C16": dict(
+        technique="Coq proof (first-argmax prefix of the decreasing order is the optimal non-empty subset; exchange argument) + model-vs-code correspondence with a spec checker",
+        text="Theorems in coq/Properties/C16.v: the model of find_affected_components returns the first k columns of the decreasing order of the savings, k >= 1 the smallest size "
+             "maximising the cumulative saving minus the per-component penalties; the columns are distinct, valid and listed by non-increasing saving; no excluded column has a larger "
+             "saving than an included one; the subset attains the best-subset value Pbest over ALL non-empty subsets; a column permutation of the data permutes the reported columns "
+             "(tie-free case); sub_s2d marks exactly the reported columns on exactly the anomaly's rows. Tie: per anomaly reported by the real MVCAPA on integer table savings "
+             "(p = 2..6; sparse penalty made a half-integer so arithmetic is exact) the icolumns must satisfy every clause (decided in Coq) and equal the model on tie-free rows; "
+             "transform must equal the dense marking model.",
+        note=BASE_TB + "Model/Capa.affected hand-written. NumPy's argsort order among EQUAL savings is unspecified: equality with the model is required only when the savings are "
+             "pairwise distinct; the clauses themselves are checked on every row. No axioms.",
+        ref="DESIGN.md section 4 / C16"),
     "C17": dict(
         technique="Coq proof (groupby-on-dense-labels model = filter of the changepoint partition, for any statistic) + exact model-vs-code correspondence",
         text="Theorems in coq/Properties/C17.v, for ANY statistic, bounds, n >= 1 and valid changepoint list: the groups obtained from the wrapped detector's dense labels are exactly "
